@@ -21,7 +21,11 @@ RULE = (
     "machine on a bare TrustRegion with rules update_radius(ratio, |s|) over a grid incl. negative and huge "
     "ratios, short_step(), enhance_resolution(); same invariants plus a logarithmic bound on the number of "
     "resolution reductions. Non-trivial = a run with at least one resolution reduction and one penalty change "
-    "(end to end); a history with at least one resolution reduction (machine); distinct = distinct spec / history"
+    "(end to end); a history with at least one resolution reduction (machine); distinct = distinct spec / history. "
+    "Centre family (one case in four): the TrustRegion left by a short generated run has its recorded values, "
+    "penalty and current best index edited (copies, +-k ulps, 2^100 barrier values, scaled constraint rows, "
+    "penalties 0..2^56) and set_best_index is called; non-trivial = a round in which another point lies within "
+    "the rounding band of the least merit with a different violation"
 )
 ASSUMPTIONS = [
     "the merit of interpolation point k is recomputed as fun_val[k] + penalty*||violation_k||_2 from the "
@@ -97,8 +101,30 @@ def strategy_e2e(draw):
     return enc(sp)
 
 
+CENTRE_PROFILE = dict(PROFILE, maxfev=(4, 30), faults=10, infeasible_prob=50)
+
+
+@st.composite
+def strategy_centre(draw):
+    """Direct family for the centre rule: a short generated run provides a real TrustRegion (bounds, linear and
+    nonlinear constraints of any shape); its recorded values, penalty and current best index are then edited
+    to create exact ties, ties within the rounding band, barrier-sized values, and `set_best_index` is called."""
+    base = draw(S.problems(CENTRE_PROFILE))
+    rounds = []
+    for _ in range(draw(st.integers(1, 4))):
+        edits = draw(st.lists(st.tuples(st.integers(0, 11), st.integers(0, 11),
+                                        st.sampled_from(["copy", "copy", "ulp", "ulp", "barrier", "dyadic", "small"]),
+                                        st.integers(-4, 4)), max_size=6))
+        cedits = draw(st.lists(st.tuples(st.integers(0, 11), st.integers(0, 11),
+                                         st.sampled_from([0.0, 0.5, 1.0, 1.0, 2.0, -1.0])), max_size=4))
+        pen = draw(st.sampled_from(["keep", "keep", 0.0, 1.0, 2.0 ** 20, 2.0 ** 56]))
+        rounds.append({"edits": [list(e) for e in edits], "cedits": [list(e) for e in cedits], "pen": pen,
+                       "best": draw(st.integers(0, 11))})
+    return enc({"kind": "centre", "base": dec(base), "rounds": rounds})
+
+
 def strategy(tier):
-    return strategy_e2e()
+    return st.integers(0, 3).flatmap(lambda i: strategy_centre() if i == 0 else strategy_e2e())
 
 
 GIVEN_SHARE = 0.7
@@ -175,56 +201,110 @@ class TRTaps:
         self.penalties.add(float(pen))
 
     def centre(self, fw):
-        out = self.out
-        m = fw.models
-        pb = fw._pb
-        npt, n = m.npt, m.n
-        pen = fw.penalty
-        merits, viols, mags = [], [], []
-        for k in range(npt):
-            x = m.interpolation.point(k)
-            v = np.r_[np.maximum(pb.linear.a_ub @ x - pb.linear.b_ub, 0.0), np.abs(pb.linear.a_eq @ x - pb.linear.b_eq),
-                      np.maximum(m.cub_val[k, :], 0.0), np.abs(m.ceq_val[k, :])]
-            mk = m.fun_val[k]
-            pk = 0.0
-            if pen > 0.0 and np.count_nonzero(v):
-                pk = pen * float(np.linalg.norm(v))
-                mk = mk + pk
-            merits.append(float(mk))
-            mags.append(abs(float(m.fun_val[k])) + pk)
-            viols.append(float(np.max(v, initial=0.0)))
-        b = int(fw.best_index)
-        mb = merits[b]
-        mmin = min(merits)
-        band = npt * 10.0 * S.EPS * max(n, npt) * max(abs(mb), abs(mmin), 1.0)
-        if not math.isfinite(mb) or not math.isfinite(band):
-            return
-        # allow for the rounding of the harness' own recomputation of the linear residuals
-        band += 64 * S.EPS * pen * sum(viols) + 64 * S.EPS * abs(mb)
-        if mb > mmin + band:
-            out.fail("C18.centre", "the centre (index %d, merit %.17g) is not a least-merit interpolation point: "
-                     "index %d has merit %.17g (penalty %.3g, band %.3g)"
-                     % (b, mb, int(np.argmin(merits)), mmin, pen, band))
-            return
-        # ties within rounding go to the smaller violation.  "Within rounding" is the solver's own band
-        # 10*eps*max(n, npt)*max(|least merit|, 1); only points clearly inside it (half the band, minus the
-        # rounding of this recomputation of the merit values) and clearly less violated (1e-9 relative) count.
-        tol = 10.0 * S.EPS * max(n, npt) * max(abs(mmin), 1.0)
-        slack = 8.0 * S.EPS * max(mags)
-        for k in range(npt):
-            if k != b and merits[k] - mmin <= 0.5 * tol - slack and viols[k] < viols[b] - 1e-9 * max(1.0, viols[b]):
-                out.fail("C18.centre_tie", "index %d has the least merit up to rounding (%.17g, least %.17g, centre "
-                         "%.17g, band %.3g) and a smaller violation than the centre %d (%.6g < %.6g)"
-                         % (k, merits[k], mmin, mb, tol, b, viols[k], viols[b]))
-                break
-        if any(k != b and merits[k] - mmin <= 0.5 * tol - slack and viols[k] > viols[b] + 1e-9 * max(1.0, viols[b])
-               for k in range(npt)):
-            if not getattr(self, "_tie_seen", False):
-                self._tie_seen = True
-                out.label("merit-tie-with-different-violations")
+        centre_clause(fw, self.out, self)
+
+
+def centre_clause(fw, out, once=None):
+    m = fw.models
+    pb = fw._pb
+    npt, n = m.npt, m.n
+    pen = fw.penalty
+    merits, viols, mags = [], [], []
+    for k in range(npt):
+        x = m.interpolation.point(k)
+        v = np.r_[np.maximum(pb.linear.a_ub @ x - pb.linear.b_ub, 0.0), np.abs(pb.linear.a_eq @ x - pb.linear.b_eq),
+                  np.maximum(m.cub_val[k, :], 0.0), np.abs(m.ceq_val[k, :])]
+        mk = m.fun_val[k]
+        pk = 0.0
+        if pen > 0.0 and np.count_nonzero(v):
+            pk = pen * float(np.linalg.norm(v))
+            mk = mk + pk
+        merits.append(float(mk))
+        mags.append(abs(float(m.fun_val[k])) + pk)
+        viols.append(float(np.max(v, initial=0.0)))
+    b = int(fw.best_index)
+    mb = merits[b]
+    mmin = min(merits)
+    band = 1.5 * 10.0 * S.EPS * max(n, npt) * max(abs(mb), abs(mmin), 1.0)
+    if not math.isfinite(mb) or not math.isfinite(band):
+        return
+    # allow for the rounding of the harness' own recomputation of the linear residuals
+    band += 64 * S.EPS * pen * sum(viols) + 64 * S.EPS * abs(mb)
+    if mb > mmin + band:
+        out.fail("C18.centre", "the centre (index %d, merit %.17g) is not a least-merit interpolation point: "
+                 "index %d has merit %.17g (penalty %.3g, band %.3g)"
+                 % (b, mb, int(np.argmin(merits)), mmin, pen, band))
+        return
+    # ties within rounding go to the smaller violation.  "Within rounding" is the solver's own band
+    # 10*eps*max(n, npt)*max(|least merit|, 1); only points clearly inside it (half the band, minus the
+    # rounding of this recomputation of the merit values) and clearly less violated (1e-9 relative) count.
+    tol = 10.0 * S.EPS * max(n, npt) * max(abs(mmin), 1.0)
+    slack = 8.0 * S.EPS * max(mags)
+    for k in range(npt):
+        if k != b and merits[k] - mmin <= 0.5 * tol - slack and viols[k] < viols[b] - 1e-9 * max(1.0, viols[b]):
+            out.fail("C18.centre_tie", "index %d has the least merit up to rounding (%.17g, least %.17g, centre "
+                     "%.17g, band %.3g) and a smaller violation than the centre %d (%.6g < %.6g)"
+                     % (k, merits[k], mmin, mb, tol, b, viols[k], viols[b]))
+            break
+    if any(k != b and merits[k] - mmin <= 0.5 * tol - slack and viols[k] > viols[b] + 1e-9 * max(1.0, viols[b])
+           for k in range(npt)):
+        if once is None or not getattr(once, "_tie_seen", False):
+            if once is not None:
+                once._tie_seen = True
+            out.label("merit-tie-with-different-violations")
+        return True
+    return False
+
+
+def centre_case(spec):
+    out = Outcome()
+    b, t = e2e.run(enc(spec["base"]))
+    fw = t.framework
+    if t.exc is not None or fw is None or not hasattr(fw, "_models"):
+        out.label("centre-family-no-framework")
+        return out
+    m = fw.models
+    npt = m.npt
+    ties = 0
+    for rd in spec["rounds"]:
+        for k, j, mode, u in rd["edits"]:
+            k, j = k % npt, j % npt
+            v = float(m.fun_val[j])
+            if mode == "ulp":
+                for _ in range(abs(u)):
+                    v = float(np.nextafter(v, math.inf if u > 0 else -math.inf))
+            elif mode == "barrier":
+                v = e2e.BARRIER if u >= 0 else -e2e.BARRIER
+            elif mode == "dyadic":
+                v = v + u * 2.0 ** -10
+            elif mode == "small":
+                v = u * 2.0 ** -30
+            m.fun_val[k] = v
+        for k, j, fac in rd["cedits"]:
+            k, j = k % npt, j % npt
+            m.cub_val[k, :] = fac * m.cub_val[j, :]
+            m.ceq_val[k, :] = fac * m.ceq_val[j, :]
+        if rd["pen"] != "keep":
+            fw._penalty = float(rd["pen"])
+        fw._best_index = rd["best"] % npt
+        fw.set_best_index()
+        if centre_clause(fw, out):
+            ties += 1
+        first = int(fw.best_index)
+        fw.set_best_index()
+        if int(fw.best_index) != first:
+            out.label("centre-changes-on-repeat")
+    out.label("centre-family")
+    if ties:
+        out.nontrivial = True
+        out.sample = {"family": "centre", "npt": int(npt), "n": int(m.n), "rounds": len(spec["rounds"]),
+                      "rounds_with_rounding_ties_of_different_violation": ties, "penalty": float(fw.penalty)}
+    return out
 
 
 def run_case(spec):
+    if isinstance(spec, dict) and spec.get("kind") == "centre":
+        return centre_case(dec(spec))
     out = Outcome()
     holder = {}
 
